@@ -11,16 +11,17 @@ import (
 // ---- T2: Go statements/expressions (whitelisted subset) -> Lean `do` notation ----
 
 type tctx struct {
-	pkg     string            // lean prefix of the package ("banner")
-	env     constEnv          // package-level constants
-	subst   map[string]string // exact Go source text of an expression -> Lean text
-	bv      bool              // 64-bit machine arithmetic (BitVec 64)
-	hdrVars map[string]string // Go source text of a header-valued expression -> Lean mutable variable
-	tables  map[string]string // Go map variable used as a set -> Lean list
-	funcs   map[string]string // callee name -> Lean function (other T2 targets)
-	ret     string            // "value" | "option" (second result is an error)
-	stmtSub map[string]string // exact Go source text of a statement -> Lean line
-	where   string
+	pkg        string            // lean prefix of the package ("banner")
+	env        constEnv          // package-level constants
+	subst      map[string]string // exact Go source text of an expression -> Lean text
+	bv         bool              // 64-bit machine arithmetic (BitVec 64)
+	hdrVars    map[string]string // Go source text of a header-valued expression -> Lean mutable variable
+	tables     map[string]string // Go map variable used as a set -> Lean list
+	funcs      map[string]string // callee name -> Lean function (other T2 targets)
+	ret        string            // "value" | "option" (second result is an error)
+	sliceAllow []string          // statements (by source prefix) that may mention a header variable without being a header operation
+	stmtSub    map[string]string // exact Go source text of a statement -> Lean line
+	where      string
 }
 
 func (t *tctx) bad(n ast.Node, what string) string {
@@ -267,6 +268,11 @@ func (t *tctx) hdrOp(s ast.Stmt) (string, bool) {
 	if !ok {
 		return "", false
 	}
+	if id, ok := c.Fun.(*ast.Ident); ok && id.Name == "keepEndToEnd" && len(c.Args) == 2 {
+		if hv, ok := t.hdrVars[src(c.Args[0])]; ok {
+			return fmt.Sprintf("%s := Hdr.dropConnOption %s %s", hv, hv, t.expr(c.Args[1])), true
+		}
+	}
 	se, ok := c.Fun.(*ast.SelectorExpr)
 	if !ok {
 		return "", false
@@ -490,6 +496,23 @@ func (t *tctx) slice(list []ast.Stmt) []ast.Stmt {
 			out = append(out, s)
 			continue
 		}
+		switch s.(type) {
+		case *ast.ExprStmt, *ast.AssignStmt, *ast.GoStmt, *ast.DeferStmt:
+			txt := src(s)
+			for hv := range t.hdrVars {
+				if mentionsVar(txt, hv) {
+					allowed := false
+					for _, a := range t.sliceAllow {
+						if strings.HasPrefix(txt, a) {
+							allowed = true
+						}
+					}
+					if !allowed {
+						t.bad(s, "statement touches the header "+hv+" in a way the slice cannot express")
+					}
+				}
+			}
+		}
 		if is, ok := s.(*ast.IfStmt); ok && is.Init == nil {
 			body := t.slice(is.Body.List)
 			var els ast.Stmt
@@ -506,6 +529,26 @@ func (t *tctx) slice(list []ast.Stmt) []ast.Stmt {
 		}
 	}
 	return out
+}
+
+// mentionsVar: txt contains the expression v not followed/preceded by an identifier character.
+func mentionsVar(txt, v string) bool {
+	isID := func(b byte) bool {
+		return b == '_' || b >= '0' && b <= '9' || b >= 'a' && b <= 'z' || b >= 'A' && b <= 'Z'
+	}
+	for i := 0; ; {
+		j := strings.Index(txt[i:], v)
+		if j < 0 {
+			return false
+		}
+		j += i
+		before := j == 0 || !(isID(txt[j-1]) || txt[j-1] == '.')
+		after := j+len(v) >= len(txt) || !isID(txt[j+len(v)])
+		if before && after {
+			return true
+		}
+		i = j + 1
+	}
 }
 
 func emitDef(sb *strings.Builder, sig string, body []string, comment string) {
@@ -612,6 +655,87 @@ func genFuncs() string {
 		t := &tctx{pkg: "store", env: collectConsts(f), ret: "option", where: rel + ":mostSpecificMatchingBackend"}
 		emitDef(&sb, "store_mostSpecificMatchingBackend (path : Bytes) (backends : List Backend) : Option Bytes", t.stmts(fd.Body.List, "  "), rel+" mostSpecificMatchingBackend")
 
+		// LookupBackend / lookupSharedBackend: the decision over (query error, most specific match, liveness, shared lookup)
+		for _, lk := range []struct{ fn, lean, sig, comment string }{
+			{"LookupBackend", "store_LookupBackend", "(queryErr : Bool) (ownMatch : Option Bytes) (live : Bytes → Bool) (shared : Option Bytes) : Option Bytes", "persistentStore.LookupBackend: decision; ownMatch = mostSpecificMatchingBackend over the user's backends, shared = lookupSharedBackend(path)"},
+			{"lookupSharedBackend", "store_lookupSharedBackend", "(queryErr : Bool) (ownMatch : Option Bytes) (live : Bytes → Bool) (shared : Option Bytes) : Option Bytes", "persistentStore.lookupSharedBackend: decision; ownMatch = mostSpecificMatchingBackend over the allUsers backends (shared is unused)"},
+		} {
+			fd := mustFunc(f, rel, "persistentStore", lk.fn)
+			tl := &tctx{pkg: "store", where: rel + ":" + lk.fn}
+			retOf := func(r *ast.ReturnStmt) string {
+				if len(r.Results) == 1 && src(r.Results[0]) == "d.lookupSharedBackend(ctx, path)" && lk.fn == "LookupBackend" {
+					return "shared"
+				}
+				if len(r.Results) == 2 && src(r.Results[1]) == "nil" && src(r.Results[0]) == "backendID" {
+					return "(some backendID)"
+				}
+				if len(r.Results) == 2 && src(r.Results[0]) == "\"\"" && src(r.Results[1]) != "nil" {
+					return "none"
+				}
+				tl.bad(r, "return shape")
+				return ""
+			}
+			single := func(is *ast.IfStmt) *ast.ReturnStmt {
+				if is.Else != nil || len(is.Body.List) != 1 {
+					tl.bad(is, "if shape")
+				}
+				r, ok := is.Body.List[0].(*ast.ReturnStmt)
+				if !ok {
+					tl.bad(is, "if body")
+				}
+				return r
+			}
+			var pre, onNone, onSome []string
+			matched := false
+			finished := false
+			for _, st := range fd.Body.List {
+				switch x := st.(type) {
+				case *ast.DeclStmt:
+					continue
+				case *ast.AssignStmt:
+					switch {
+					case strings.HasPrefix(src(x), "q := datastore.NewQuery(backendKind).Filter(\"EndUser=\", "):
+						want := map[string]string{"LookupBackend": "endUser", "lookupSharedBackend": "sharedBackendUser"}[lk.fn]
+						if !strings.Contains(src(x), "Filter(\"EndUser=\", "+want+")") {
+							tl.bad(x, "query filter")
+						}
+					case src(x) == "backendID, err := mostSpecificMatchingBackend(path, backends)":
+						matched = true
+					default:
+						tl.bad(x, "assignment")
+					}
+				case *ast.IfStmt:
+					r := single(x)
+					switch {
+					case x.Init != nil && strings.Contains(src(x.Init), "q.GetAll(ctx, &backends)") && src(x.Cond) == "err != nil" && !matched:
+						pre = append(pre, "  if queryErr then", "    return "+retOf(r))
+					case x.Init == nil && src(x.Cond) == "err != nil" && matched && onNone == nil:
+						onNone = []string{"    return " + retOf(r)}
+					case x.Init == nil && src(x.Cond) == "d.hasBackend(ctx, backendID, backendTimeout)" && matched:
+						onSome = append(onSome, "    if live backendID then", "      return "+retOf(r))
+					default:
+						tl.bad(x, "condition")
+					}
+				case *ast.ReturnStmt:
+					if !matched {
+						tl.bad(x, "return before the match")
+					}
+					onSome = append(onSome, "    return "+retOf(x))
+					finished = true
+				default:
+					tl.bad(st, "statement")
+				}
+			}
+			if !finished || onNone == nil {
+				fail("%s: %s no longer has the expected shape", rel, lk.fn)
+			}
+			lines := append(pre, "  match ownMatch with", "  | none =>")
+			lines = append(lines, onNone...)
+			lines = append(lines, "  | some backendID =>")
+			lines = append(lines, onSome...)
+			emitDef(&sb, lk.lean+" "+lk.sig, lines, rel+" "+lk.comment)
+		}
+
 		wb := mustFunc(f, rel, "", "writeBlobParts")
 		t = &tctx{pkg: "store", env: collectConsts(f), where: rel + ":writeBlobParts", subst: map[string]string{"len(bytes)": "bytesLen"}}
 		pc := findStmt(wb, func(s ast.Stmt) bool {
@@ -643,6 +767,37 @@ func genFuncs() string {
 		body := t.stmts(bnd, "  ")
 		body = append(body, "  return (partStart, partEnd)")
 		emitDef(&sb, "store_partBounds (i : Nat) (bytesLen : Nat) : Nat × Nat", body, rel+" writeBlobParts: slice bounds of part i")
+
+		// after the bounds: every iteration names its part AND puts it (in index order for the names), unconditionally:
+		// `blob.read` fetches every named part, so a named but unwritten part makes the blob unreadable
+		{
+			named, put, jumps, condPut := 0, 0, 0, false
+			for _, s := range fl.Body.List {
+				if src(s) == "partNames = append(partNames, ID)" {
+					named++
+				}
+				if g, ok := s.(*ast.GoStmt); ok && strings.Contains(src(g), "datastore.Put(ctx, k, p)") {
+					put++
+				}
+			}
+			ast.Inspect(fl.Body, func(n ast.Node) bool {
+				switch x := n.(type) {
+				case *ast.BranchStmt:
+					jumps++
+				case *ast.IfStmt:
+					if strings.Contains(src(x.Body), "datastore.Put") && !strings.Contains(src(x.Init), "datastore.Put") {
+						condPut = true
+					}
+				case *ast.ReturnStmt:
+					if !strings.Contains(src(fl.Body), "go func() {") {
+						jumps++
+					}
+					_ = x
+				}
+				return true
+			})
+			fmt.Fprintf(&sb, "/-- %s writeBlobParts: each loop iteration appends the part name and starts the Put of that part, with no branch (continue/break) around either -/\ndef store_everyNamedPartIsPut : Bool := %v\n\n", rel, named == 1 && put == 1 && jumps == 0 && !condPut)
+		}
 
 		nb := mustFunc(f, rel, "", "newBlob")
 		first, ok := nb.Body.List[0].(*ast.IfStmt)
@@ -791,6 +946,14 @@ func genFuncs() string {
 		body := append([]string{"  let mut h := h0"}, t.stmts(sl, "  ")...)
 		body = append(body, "  return h")
 		emitDef(&sb, "agent_forwardRequestHeader (forwardUserID stripCredentials : Bool) (requestUser : Bytes) (h0 : Hdr) : Hdr", body, rel+" forwardRequest: header edits (slice)")
+		// keepEndToEnd is modelled by hand (Hdr.dropConnOption): its text must be the one that was modelled
+		if strings.Contains(src(fd.Body), "keepEndToEnd(") {
+			ke := mustFunc(f, rel, "", "keepEndToEnd")
+			want := "{\n\tvar kept []string\n\tfor _, value := range header[\"Connection\"] {\n\t\tvar options []string\n\t\tfor _, option := range strings.Split(value, \",\") {\n\t\t\tif !strings.EqualFold(strings.TrimSpace(option), name) {\n\t\t\t\toptions = append(options, option)\n\t\t\t}\n\t\t}\n\t\tif len(options) > 0 {\n\t\t\tkept = append(kept, strings.Join(options, \",\"))\n\t\t}\n\t}\n\tif len(kept) == 0 {\n\t\theader.Del(\"Connection\")\n\t} else {\n\t\theader[\"Connection\"] = kept\n\t}\n}"
+			if src(ke.Body) != want {
+				fail("%s: keepEndToEnd body changed; the hand model Hdr.dropConnOption no longer applies:\n%s", rel, src(ke.Body))
+			}
+		}
 
 		rh := mustFunc(f, rel, "", "runHealthChecks")
 		t = &tctx{pkg: "agent", env: collectConsts(f), where: rel + ":runHealthChecks",
@@ -992,8 +1155,9 @@ func genFuncs() string {
 		fmt.Fprintf(&sb, "/-- %s sessionResponseWriter.WriteHeader: (Path, Secure, HttpOnly) of the session cookie; Name = configured name, Value = session ID, Expires = now + configured lifetime (checked syntactically by goextract) -/\ndef sessions_cookieAttrs (disableSSLForTest : Bool) : Bytes × Bool × Bool := (%s, %s, %s)\n\n", rel, t.expr(pathE), t.expr(secE), t.expr(httpE))
 		// the header edits of WriteHeader as a function (slice: header operations and the ifs guarding them)
 		ts := &tctx{pkg: "sessions", env: collectConsts(f), where: rel + ":sessionResponseWriter.WriteHeader (header slice)", ret: "var:header",
-			hdrVars: map[string]string{"header": "header"},
-			subst:   map[string]string{"w.sessionID == \"\"": "noSession", "sessionCookie.String()": "sessionCookie", "len(cookiesToAdd)": "parsedCookies", "w.wroteHeader": "wroteHeader"}}
+			sliceAllow: []string{"header := w.Header()", "cookiesToAdd := (&http.Response{Header: header}).Cookies()"},
+			hdrVars:    map[string]string{"header": "header"},
+			subst:      map[string]string{"w.sessionID == \"\"": "noSession", "sessionCookie.String()": "sessionCookie", "len(cookiesToAdd)": "parsedCookies", "w.wroteHeader": "wroteHeader"}}
 		knownInts["http.StatusSwitchingProtocols"] = 101
 		sl := ts.slice(fd.Body.List)
 		if len(sl) > 0 {
